@@ -76,6 +76,9 @@ class GenericMixin:
                 if not hasattr(base, '__origin__'):
                     continue
 
+                if not (isinstance(base.__origin__, type) and issubclass(base.__origin__, GenericMixin)):
+                    continue  # another parametrized base class (e.g. Sequence[int]) that has nothing to do with this mixin
+
                 generic_base = get_generic_base(base.__origin__)
 
                 if generic_base:
